@@ -1016,7 +1016,7 @@ class WorldGen:
         for (t, i) in cands[: r.choice((1, 2, 3))]:
             seam = r.choice(k["fault_kinds"])
             out.append({"t": t, "i": i, "seam": seam, "n": r.choice((1, 1, 2, 3, 5)),
-                        "exc": r.choice(("FloatingPointError", "MemoryError", "OverflowError", "ZeroDivisionError", "SimCancel"))})
+                        "exc": r.choice(("FloatingPointError", "MemoryError", "OverflowError", "ZeroDivisionError", "SimCancel", "Reenter"))})
         return out
 
     def world(self):
